@@ -112,7 +112,7 @@ def main(argv):
             fname = r['function'] + ('[%s]' % r['variant'] if r.get('variant') else '')
             functions.append(dict(function=fname, status=r['status'], paths=r.get('paths'), inlined=r.get('inlined', []),
                                   callee_contracts=r.get('callee_contracts', []), dropped=r.get('dropped', {}), seconds=r['seconds'],
-                                  vacuity=r.get('vacuity')))
+                                  vacuity=r.get('vacuity'), reachable_return_paths=r.get('reachable_return_paths'), return_paths=r.get('return_paths')))
             if r['status'] == 'unsupported':
                 undecided.append('%s: %s' % (fname, r['error']))
                 continue
